@@ -1271,6 +1271,10 @@ fn check_spec_reserved_keys(key: &[u8], mut value: &[u8]) -> Result<(), Error> {
             #[cfg(feature = "rust-secp256k1")]
             <secp256k1::SecretKey as EnrKeyUnambiguous>::decode_public(&_pubkey_bytes)?;
         }
+        b"ed25519" => {
+            // the decoder requires a byte string under this key for every key type
+            Bytes::decode(&mut value)?;
+        }
         _ => {
             // all other values must still be a well-formed RLP item
             let header = Header::decode(&mut value)?;
